@@ -220,6 +220,27 @@ def check(run):
                           'the response header announces %s bytes but the generator is asked for %s: the body does not match its content-length and corrupts the framing of the next response'
                           % (q.render(lf, a['args'][2]), q.render(lf, b['args'][2])), 'both are (end - start)')
                 run.check(off == ({'start': 1}, 0), 'R14', 'range-offset', H + '::register_content', lf.loc(b), 'the generator is not asked for the range starting at `start`', 'generator offset is start')
+        # the range handed on lies inside the registered content: 0 <= start <= end <= size at the generator call, whatever
+        # the Range header said (a last-byte-pos past the end means "up to the end", a suffix longer than the content "all")
+        for b in gens:
+            loc = {}
+            for x in walk(b):
+                if x['k'] == 'ref' and x.get('dk') == 'local' and x.get('name') in ('start', 'end'):
+                    loc[x['name']] = x['did']
+            if set(loc) != {'start', 'end'}:
+                run.unrecognised('R14', 'range-within-content', H + '::register_content', lf.loc(b), 'the generator call does not name the locals start/end (range idiom changed)')
+                continue
+            ok_e, se = engines.local_bounded_at(lf, loc['end'], 'end', b, upper='size')
+            ok_s, ss = engines.local_bounded_at(lf, loc['start'], 'start', b, upper='end', lower0=True, nonneg_names=('size',))
+            # a bound of start taken from `end` is only worth something when `end` is not re-defined afterwards
+            late = [s_ for s_, r_ in q.local_defs(lf, loc['end']) for s2, r2 in q.local_defs(lf, loc['start'])
+                    if any(x['k'] == 'ref' and x.get('did') == loc['end'] for x in walk(r2)) and s_['k'] != 'decl' and lf.cfg.node_pos(s_) and lf.cfg.node_pos(s2) and
+                    ((lf.cfg.node_pos(s2)[1] < lf.cfg.node_pos(s_)[1]) if lf.cfg.node_block(s2) == lf.cfg.node_block(s_) else lf.cfg._reaches(lf.cfg.node_block(s2), lf.cfg.node_block(s_)))]
+            bad = se if not ok_e else (ss if not ok_s else (late[0] if late else None))
+            run.check(ok_e and ok_s and not late, 'R14', 'range-within-content', H + '::register_content', lf.loc(bad) if bad is not None else lf.loc(b),
+                      'the byte range reaching the generator is not cut down to the registered content (%s): "bytes=90-199" on 100 bytes announces content-length 110 and asks the generator for bytes that do not exist, "bytes=-200" for a negative offset - the body is shorter than its content-length and the next response on the connection is swallowed as body'
+                      % ('`end` as parsed from the header can exceed size' if not ok_e else ('`start` can be negative or exceed end' if not ok_s else '`end` is re-defined after start was bounded by it')),
+                      '0 <= start <= end <= size on every path to the generator call')
     if not found:
         run.broke('register_content: send_response/gen pair not found')
     run.clause('the Connection header is found when present: literal keys addressing the parsed header map are lower-case, as parse_request stores them (shared with C18)')
